@@ -23,11 +23,9 @@ def run(tier, repo):
     r = res.get("tls_sign_hash::parse_content_and_signature")
     if r and "code" in r:
         st = r["code"]["steps"]
-        # canonical form: the content parser (read by both forms) first, then the branch on the flag
-        ok = len(st) == 2 and st[0][0] == "param_parser" and st[1][0] == "ite" and st[1][2] == ["p", "arg2"]
-        if ok:
-            a, b = st[1][3], st[1][4]
-            ok = [x[0] for x in a["steps"]] == ["u", "u", "u", "bytes"] and [x[0] for x in b["steps"]] == ["u", "bytes"]
+        # canonical form: the content parser, then the algorithm pair exactly when the flag is set, then the length-prefixed signature
+        ok = [x[0] for x in st] == ["param_parser", "cond", "u", "bytes"] and st[1][2] == ["p", "arg2"] and [x[0] for x in st[1][3]["steps"]] == ["u", "u"] \
+            and st[2][2] == 16 and st[3][2] == ["v", st[2][1]]
         rp.check(ok, "SIG-FLAG", "branches", site(F.fn("tls_sign_hash::parse_content_and_signature")), "flag/branch pairing of parse_content_and_signature differs", found=seq_str(r["code"])[:400])
     rp.floor("grammar_functions", len(res), 6)
     rp.assume("nom 7.1.3 length_data/pair semantics; nom-derive generated code is analysed as source, its Selector dispatch is the generated match")
